@@ -177,6 +177,40 @@ def run(ck):
             tr_.transform(S, inv=S.T.copy())
             emit("transform %d %s %s %s" % (n, cvals(RR), cvals(S.T), cvals(S)), tr_._data, 1e-9)
             identities(numpy, tr_._data, "tensor after RelaxationTensor.transform", ck, inp, "transform", herm=hermitian_input)
+            # the same without handing over the inverse, and with a complex unitary S (eigenvectors of a complex Hermitian operator are
+            # such): rational complex rotation with 3-4-5 entries, so the model still computes exactly
+            Sc = orth(n).astype(complex)
+            i_, j_ = rng.sample(range(n), 2)
+            Gc = numpy.eye(n, dtype=complex)
+            Gc[i_, i_] = Gc[j_, j_] = 0.6; Gc[i_, j_] = 0.8j; Gc[j_, i_] = 0.8j
+            Sc = Sc @ Gc
+            for Sx, tagx in ((S, "transform:no-inverse-given"), (Sc, "transform:complex-unitary")):
+                tx = rt_obj(LindbladForm, SystemBathInteraction, Operator, Hamiltonian, numpy, n)
+                tx._data = RR.copy()
+                try:
+                    tx.transform(Sx.copy())
+                except Exception as e:
+                    ck.fail("raises:" + tagx, "RelaxationTensor.transform raised %r" % (e,), dict(inp, S=[[str(z) for z in r] for r in Sx]))
+                    continue
+                emit("transform %d %s %s %s" % (n, cvals(RR), cvals(numpy.conj(Sx.T)), cvals(Sx)), tx._data, 1e-9)
+                identities(numpy, tx._data, "tensor after RelaxationTensor.transform(S)", ck, dict(inp, S=[[str(z) for z in r] for r in Sx]), tagx,
+                           herm=hermitian_input)
+            # the basis context of a complex Hermitian operator (its eigenvectors form a complex unitary matrix)
+            if h % 4 == 0:
+                Hc = rint((n, n), cplx=True); Hc = Hc + numpy.conj(Hc.T) + numpy.diag([3.0 * k for k in range(n)])
+                te = rt_obj(LindbladForm, SystemBathInteraction, Operator, Hamiltonian, numpy, n)
+                te._data = RR.copy()
+                try:
+                    with eigenbasis_of(Hamiltonian(data=Hc.copy())):
+                        d_c = numpy.array(te.data).copy()
+                    d_back = numpy.array(te.data).copy()
+                    identities(numpy, d_c, "tensor inside eigenbasis_of(complex Hermitian operator)", ck, dict(inp, Hc=[[str(z) for z in r] for r in Hc]),
+                               "other-basis:complex-hermitian", herm=hermitian_input)
+                    if numpy.abs(d_back - RR).max() > 1e-9 * max(1.0, numpy.abs(RR).max()):
+                        ck.fail("other-basis:complex-hermitian:restore", "tensor not restored after leaving the context of a complex Hermitian operator",
+                                dict(inp, Hc=[[str(z) for z in r] for r in Hc]), float(numpy.abs(d_back - RR).max()))
+                except Exception as e:
+                    ck.fail("raises:other-basis:complex-hermitian", "raised %r" % (e,), inp)
         # -- updateStructure + Foerster dephasing on a population-transfer tensor
         KF = numpy.abs(rint((n, n))) / 4.0
         FT = numpy.zeros((n, n, n, n), dtype=complex)
